@@ -17,6 +17,12 @@ func targetFor(data []byte, mode string) float64 {
 	if mode == "slow" { // 8 trailing zeros: some hundred batches
 		return math.Pow(3, 8) / ln
 	}
+	if mode == "slower" {
+		return math.Pow(3, 10) / ln
+	}
+	if mode == "slowest" {
+		return math.Pow(3, 12) / ln
+	}
 	return math.Pow(3, 4) / ln // "either": about one batch in 1.3 finds
 }
 
